@@ -3,7 +3,7 @@
    from the operator sets BinOps / UnOps (one representative per precedence level in the quick tier,
    every operator in the thorough tier), all postfix forms, composite and function literals,
    parenthesised (conversion) types and a few statements; the state graph grows a tree by one level per
-   step.  Every state carries the tree t, its source src = Print(t) and the outcome pred that the
+   step.  Every state carries the tree t, its source src = PrintTree(t) and the outcome pred that the
    implementation-shaped String model predicts for it (diagnostic); the check exports the states
    (TLC -dump) as the case set. *)
 EXTENDS ExprPrint, TLC, Json, SequencesExt
@@ -50,8 +50,8 @@ Grow(x, S) ==
 RECURSIVE Trees(_)
 Trees(d) == IF d = 1 THEN {A}
             ELSE LET P == Trees(d - 1) IN P \cup Atoms2 \cup UNION {Grow(x, P) : x \in P}
-\* siblings: every tree one level below the bound (FullSib), or a leaf, a binary, a unary, a postfix and a literal (quick tier)
-FewSib == {A, Bin("+", A, A), Un("-", A), Index(A, A), Comp(TT, <<>>)}
+\* siblings: every tree one level below the bound (FullSib), or a leaf, a binary, a unary and a postfix expression (quick tier)
+FewSib == {A, Bin("+", A, A), Un("-", A), Index(A, A)}
 Sib == IF FullSib THEN Trees(MaxDepth - 1) ELSE FewSib
 
 StmtsOf(x) ==
@@ -78,8 +78,8 @@ PredOf(x) == LET o == ImplOutcome(x) IN
              [cls |-> o, pairs |-> IF o = "violation" THEN SetToSeq(MinFail(x)) ELSE <<>>]
 
 VARIABLES t, src, pred
-Carry == src' = Print(t') /\ pred' = PredOf(t')
-Init == t \in {A} \cup Atoms2 \cup StmtAtoms /\ src = Print(t) /\ pred = PredOf(t)
+Carry == src' = PrintTree(t') /\ pred' = PredOf(t')
+Init == t \in {A} \cup Atoms2 \cup StmtAtoms /\ src = PrintTree(t) /\ pred = PredOf(t)
 GrowExpr == ~IsStmt(t) /\ Depth(t) < MaxDepth /\ t' \in Grow(t, Sib) /\ Carry
 MakeStmt == ~IsStmt(t) /\ Depth(t) <= StmtDepth /\ t' \in StmtsOf(t) /\ Carry
 Next == GrowExpr \/ MakeStmt
